@@ -50,51 +50,64 @@ func Number(value StringNumberBool) (float64, error) {
 // the nearest integer. A negative precision specifies which column
 // to round to on the left hand side of the decimal place.
 func Round(x float64, prec jtypes.OptionalInt) float64 {
-	// Adapted from gonum's floats.RoundEven.
-	// https://github.com/gonum/gonum/tree/master/floats
 
-	if x == 0 {
-		// Make sure zero is returned
-		// without the negative bit set.
-		return 0
-	}
-	// Fast path for positive precision on integers.
-	if prec.Int >= 0 && x == math.Trunc(x) {
-		return x
-	}
-	orig := x
-	intermed := multByPow10(x, prec.Int)
-	if math.IsInf(intermed, 0) {
-		return x
-	}
-	if isHalfway(intermed) {
-		correction, _ := math.Modf(math.Mod(intermed, 2))
-		intermed += correction
-		if intermed > 0 {
-			x = math.Floor(intermed)
-		} else {
-			x = math.Ceil(intermed)
+	if x == 0 || math.IsNaN(x) || math.IsInf(x, 0) {
+		if x == 0 {
+			// Make sure zero is returned
+			// without the negative bit set.
+			return 0
 		}
-	} else {
-		// Not a tie: round to the nearest integer. math.Round
-		// is exact. (Adding 0.5 and truncating is not: the sum
-		// is rounded, which turned 0.49999999999999994 into 1
-		// and an odd integer above 2^52 into the next even one.)
-		x = math.Round(intermed)
+		return x
 	}
 
-	if x == 0 {
+	// Round the decimal value of x - the shortest numeral that
+	// reads back as x - half to even. (Scaling x by a power of
+	// ten as a float64 first rounds twice: a 17 digit number
+	// just below or above a tie then lands exactly on it.)
+	s := strconv.FormatFloat(math.Abs(x), 'e', -1, 64)
+	pos := strings.IndexByte(s, 'e')
+	digits := strings.Replace(s[:pos], ".", "", 1)
+	e10, _ := strconv.Atoi(s[pos+1:])
+
+	// |x| = m * 10^exp
+	m, _ := strconv.ParseUint(digits, 10, 64)
+	exp := e10 - (len(digits) - 1)
+
+	if prec.Int > 400 || exp+prec.Int >= 0 {
+		// Nothing to round.
+		return x
+	}
+	if prec.Int < -400 || -(exp+prec.Int) > len(digits) {
+		// Less than half a unit of the rounding position.
 		return 0
 	}
 
-	// Scaling back can overflow (e.g. 1.7e308 rounded to the
-	// nearest 1e308 is 2e308). As above, return the number
-	// unrounded rather than infinity.
-	if res := multByPow10(x, -prec.Int); !math.IsInf(res, 0) {
-		return res
+	// Drop the digits below the rounding position.
+	pow := uint64(1)
+	for i := 0; i < -(exp + prec.Int); i++ {
+		pow *= 10
+	}
+	q, r := m/pow, m%pow
+	if 2*r > pow || (2*r == pow && q%2 == 1) {
+		q++
 	}
 
-	return orig
+	if q == 0 {
+		return 0
+	}
+
+	// The result is q * 10^-prec. It can overflow (e.g. 1.7e308
+	// rounded to the nearest 1e308 is 2e308): return the number
+	// unrounded rather than infinity.
+	res, err := strconv.ParseFloat(strconv.FormatUint(q, 10)+"e"+strconv.Itoa(-prec.Int), 64)
+	if err != nil || math.IsInf(res, 0) {
+		return x
+	}
+
+	if x < 0 {
+		return -res
+	}
+	return res
 }
 
 // Power returns x to the power of y.
@@ -118,37 +131,4 @@ func Sqrt(x float64) (float64, error) {
 // Random returns a random floating point number between 0 and 1.
 func Random() float64 {
 	return rand.Float64()
-}
-
-// multByPow10 multiplies a number by 10 to the power of n.
-// It does this by converting back and forth to strings to
-// avoid floating point rounding errors, e.g.
-//
-//     4.525 * math.Pow10(2) returns 452.50000000000006
-func multByPow10(x float64, n int) float64 {
-	if n == 0 || math.IsNaN(x) || math.IsInf(x, 0) {
-		return x
-	}
-
-	s := fmt.Sprintf("%g", x)
-
-	chunks := strings.Split(s, "e")
-	switch len(chunks) {
-	case 1:
-		s = chunks[0] + "e" + strconv.Itoa(n)
-	case 2:
-		e, _ := strconv.Atoi(chunks[1])
-		s = chunks[0] + "e" + strconv.Itoa(e+n)
-	default:
-		return x
-	}
-
-	x, _ = strconv.ParseFloat(s, 64)
-	return x
-}
-
-func isHalfway(x float64) bool {
-	_, frac := math.Modf(x)
-	frac = math.Abs(frac)
-	return frac == 0.5 || (math.Nextafter(frac, math.Inf(-1)) < 0.5 && math.Nextafter(frac, math.Inf(1)) > 0.5)
 }
